@@ -127,6 +127,10 @@ def matmul_shape(interp, sa, sb, st, node):
     b2 = sb if len(sb) > 1 else tuple(sb) + (Dim(1),)
     inner_a, inner_b = a2[-1], b2[-2]
     bad = dims_conflict(interp, inner_a, inner_b)
+    if not bad and inner_a != inner_b and inner_a.known() and inner_b.known() and interp.order.cmp(inner_a, inner_b) in (2, 3) and not any(isinstance(at, tuple) for d in (inner_a, inner_b) for at, _ in d.lin):
+        # contracted extents that agree only at the boundary of the size regime (1 vs N with
+        # N >= 1): a product that exists only for N == 1 is a conflict for "all inputs"
+        bad = True
     batch = broadcast(interp, a2[:-2], b2[:-2], st, node, what="matmul-batch")
     if bad:
         interp.event("shape-conflict", node, st, what="matmul-inner", a=tuple(sa), b=tuple(sb))
